@@ -35,6 +35,8 @@ DEVS = [
     # two flippers on the same button and coil (normal / novice): one event disables the one and enables the other
     D('F7', 'flipper', 's_f7', 'c_f7_main', ev=True, swap='F8'),
     D('F8', 'flipper', 's_f7', 'c_f7_main', ev=True, auto=False, swap='F7'),
+    # a flipper without activation switch: driven by sw_flip / sw_release events only, never has a rule
+    D('F9', 'flipper', '', 'c_f9_main', ev=True),
     D('A1', 'autofire', 's_a1', 'c_a1'),
     D('A2', 'autofire', 's_a2', 'c_a2', tmo=True, ev=True),
     D('A3', 'autofire', 's_a3', 'c_a3', tmo=True, delay=True),
@@ -78,7 +80,8 @@ def write_machine(scratch):
         S = sec[x['kind']]
         S.append('  %s:' % n)
         if x['kind'] == 'flipper':
-            S += ['    main_coil: %s' % x['main'], '    activation_switch: %s' % x['btn'], '    include_in_ball_search: true',
+            S += ['    main_coil: %s' % x['main']] + (['    activation_switch: %s' % x['btn']] if x['btn'] else []) + [
+                  '    include_in_ball_search: true',
                   '    ball_search_hold_time: %dms' % (SEARCH_HOLD * U)]
             if x['dual']:
                 S.append('    hold_coil: %s' % x['hold'])
@@ -459,7 +462,7 @@ def exec_schedule(job):
 # ------------------------------------------------------------------------------ schedules
 ACTIVE_SETS = [
     ['F1', 'F2', 'A2'], ['F3', 'F5', 'K1'], ['F4', 'F6', 'A3'], ['F5', 'A2'], ['F5', 'F6'], ['A1', 'A2', 'K1'],
-    ['F1', 'A3'], ['F2', 'F5'], ['A2'], ['F5'], ['F7', 'F8'], ['F7', 'F8', 'A2'],
+    ['F1', 'A3'], ['F2', 'F5'], ['A2'], ['F5'], ['F7', 'F8'], ['F7', 'F8', 'A2'], ['F9'], ['F9', 'A2'],
 ]
 
 
@@ -519,7 +522,7 @@ def mutate(sched, rnd):
     return out
 
 
-MC_RUNS_QUICK = [(['F1', 'A2'], 4, 4, 1), (['F5'], 5, 4, 1), (['F2', 'K1'], 4, 3, 1), (['F6', 'A3'], 4, 2, 1), (['F7', 'F8'], 4, 3, 1)]
+MC_RUNS_QUICK = [(['F1', 'A2'], 4, 4, 1), (['F5'], 5, 4, 1), (['F2', 'K1'], 4, 3, 1), (['F6', 'A3'], 4, 2, 1), (['F7', 'F8'], 4, 3, 1), (['F9'], 4, 3, 1)]
 MC_RUNS_THOROUGH = [(['F1', 'A2'], 5, 5, 2), (['F5'], 7, 5, 1), (['F2', 'K1'], 5, 4, 1), (['F6', 'A3'], 5, 3, 1),
                     (['F3', 'F4'], 5, 3, 1), (['F5', 'A2'], 5, 4, 1), (['A1', 'A3', 'K1'], 5, 4, 1), (['F7', 'F8'], 6, 4, 2)]
 MONITORS = ['RulesExact', 'InstallOnce', 'HandlersExact', 'SafeWhenNotInPlay', 'NoCoilLeftOn', 'NoStrayReenable']
